@@ -41,6 +41,7 @@ var c09Ops = []string{
 	"LazyChild.Info", "LazyChild.With", "yield",
 	"BWSoverLock.Write", "BWSoverLock.Sync", "BWSoverUnsafe.Write(small)", "BWSoverUnsafe.Write(oversized)", "BWSoverUnsafe.Write(oversized)", "BWSoverUnsafe.Sync", "ErrnoLocked.Write+Sync", "ErrnoLocked.Write+Sync", "ErrnoLogger.Error+Sync",
 	"ReflectCtx.Info(reflect)", "ReflectCtx.Info(reflect)", "ReflectCtx.With(reflect)", "Logger.Info(unencodable)", "Logger.Error(errors)", "Logger.Info(nested)",
+	"ScrubObs.Info", "ScrubObs.Info", "ScrubObs.InfoFields", "ScrubObs.With", "ScrubObs.TakeAndScrub", "ScrubObs.TakeAndScrub", "Observer.Filter(panicking predicate)",
 	"Logger.Info(unencodable-last)", "Logger.Info(unencodable-last)", "DeepStack.Error", "DeepStack.Error", "Logger.Info(big)", "StdLog.Print", "StdLog.Print", "StdLog.Print", "grpc.Info", "grpc.V", "zapio.Write", "Logger.Check(disabled)", "Logger.Info(stringers)",
 }
 
@@ -155,6 +156,10 @@ func c09Run(t interface{ Fatalf(string, ...any) }, p *c09Program) (sharedWriters
 	slh := zapslog.NewHandler(shared.Core())
 	// a handler with several groups still pending (no attribute consumed them yet)
 	pending := slh.WithGroup("a").WithGroup("b").WithGroup("c")
+	// a second observer whose entries are consumed by TakeAll only (each entry goes to exactly one consumer, which
+	// then owns it and may edit it in place), behind a logger that carries context
+	scrubCore, scrubLogs := observer.New(zapcore.DebugLevel)
+	scrubLg := zap.New(scrubCore).With(zap.Int("ctx", 1), zap.String("s", "v"))
 	if !p.Fresh {
 		// warm everything up before the goroutines start
 		shared.Info("warm")
@@ -285,6 +290,24 @@ func c09Run(t interface{ Fatalf(string, ...any) }, p *c09Program) (sharedWriters
 						r := slog.NewRecord(time.Unix(1, 0), slog.LevelInfo, "i", 0)
 						r.AddAttrs(slog.Int("k", g), slog.Any("v", c18Valuer{slog.StringValue("resolved")}))
 						_ = pending.Handle(context.Background(), r)
+					case "ScrubObs.Info":
+						scrubLg.Info("no call-site fields")
+					case "ScrubObs.InfoFields":
+						scrubLg.Info("fields", zap.Int("g", g))
+					case "ScrubObs.With":
+						scrubLg.With(zap.Int("child", g)).Info("child")
+					case "ScrubObs.TakeAndScrub":
+						for _, e := range scrubLogs.TakeAll() {
+							for i := range e.Context {
+								e.Context[i] = zap.Skip() // the receiver scrubs what it took
+							}
+						}
+					case "Observer.Filter(panicking predicate)":
+						// a predicate that fails (t.FailNow / a panic inside it) must not leave the observer locked
+						func() {
+							defer func() { _ = recover() }()
+							_ = logs.Filter(func(observer.LoggedEntry) bool { panic("predicate failed") })
+						}()
 					case "Observer.ReadMessages":
 						// a consumer of the observed entries reads their bytes (messages, names, string fields)
 						n := 0
